@@ -327,4 +327,26 @@ class ParmapPoolH(Harness):
 HARNESSES = {'fifo_env': FifoEnvH, 'parmap_pool': ParmapPoolH}
 PLAN = {'quick': ['fifo_env', 'parmap_pool'], 'thorough': ['fifo_env', 'parmap_pool']}
 ASSUMPTIONS = ['process executor: fifo_stream only sees futures, and the env harness enumerates every completion order '
-               'any executor can produce; the ProcessPoolExecutor wiring itself is not explored']
+               'any executor can produce; the ProcessPoolExecutor wiring itself is not explored, only bound to this model by '
+               'a free-running twin on real worker processes (54 settings incl. inverted completion order)']
+
+
+def twins(tier, pool, stats):
+    """conformance: Stream.parmap with executor='process' on real worker processes (outputs equal the reference for a grid of settings, incl. inverted completion order)"""
+    import os
+    import subprocess
+    from mc.explore import PY, REPO, VERIF
+    env = dict(os.environ, PYTHONPATH=os.path.join(REPO, 'src'))
+    try:
+        r = subprocess.run([PY, os.path.join(VERIF, 'checks', 'twins', 'c01_proc.py'), 'order'], capture_output=True, text=True,
+                           timeout=300, env=env)
+        ok = r.returncode == 0
+        detail = (r.stdout + r.stderr)[-600:]
+    except subprocess.TimeoutExpired:
+        ok = False
+        detail = 'watchdog: the real-process parmap twin did not finish within 300 s'
+    if not ok:
+        stats[0].violations.setdefault('process-executor-twin', dict(count=1, choices=[], no_replay=True,
+                                                                     detail=f'real worker processes: {detail}'))
+        return 0
+    return int(r.stdout.split()[-1])
